@@ -335,7 +335,18 @@ func init() {
 		}
 		close(ch)
 		wg.Wait()
-		rep.Rule = "the real pod control on the API model: set names {web, web-1, a, x-0-y} x claim-template lists {none, 1, 2, 3 templates, own labels, a template named like a volume of the pod template, extra template volumes} x policy {Parallel: 3 pods created in one reconcile; OrderedReady: the last of 3} x claim presence per (ordinal, template) in {absent, in the API only (stale cache), in API and cache} (full product up to 6 claims, thorough 9; beyond that all single deviations from all-absent and all-present) x a single fault (InternalError, AlreadyExists, lost response) on every claim create and every pod create, and a lookup failure on every claim; plus scale-in at each ordinal followed by scale-out under both policies. Oracle on every created pod: name, namespace, hostname, subdomain, pod-name label, revision label naming a stored revision with the pod's template, controller owner reference, one volume per claim template bound to T-S-i, template volumes kept, every claim exists before the pod create, created claims carry the selector labels, a failed claim create/lookup prevents the pod create; no update/patch/delete on claims; claims keep their identity across scale-in/out. Non-trivial = at least one write."
+		// the identity clauses (name, labels, revision label vs template) also over the general population grid,
+		// where pods are (re)created below and above a partition with several revisions in flight
+		if !stop {
+			g := tierGrids()[0]
+			var n int64
+			explore.RunSnapshots(rep, explore.Deadline(60*time.Second, 8*time.Minute), func(emit func(explore.Case) bool) {
+				snapshotGrid(g, func(c explore.Case) bool { n++; return emit(c) })
+			}, monitorOf("C06"))
+			rep.AddStates(n, n)
+			rep.Extra["population_grid_cases"] = n
+		}
+		rep.Rule = "the real pod control on the API model: set names {web, web-1, a, x-0-y} x claim-template lists {none, 1, 2, 3 templates, own labels, a template named like a volume of the pod template, extra template volumes} x policy {Parallel: 3 pods created in one reconcile; OrderedReady: the last of 3} x claim presence per (ordinal, template) in {absent, in the API only (stale cache), in API and cache} (full product up to 6 claims, thorough 9; beyond that all single deviations from all-absent and all-present) x a single fault (InternalError, AlreadyExists, lost response) on every claim create and every pod create, and a lookup failure on every claim; plus scale-in at each ordinal followed by scale-out under both policies. Oracle on every created pod: name, namespace, hostname, subdomain, pod-name label, revision label naming a stored revision with the pod's template, controller owner reference, one volume per claim template bound to T-S-i, template volumes kept, every claim exists before the pod create, created claims carry the selector labels, a failed claim create/lookup prevents the pod create; no update/patch/delete on claims; claims keep their identity across scale-in/out. The same monitor also judges every pod create of the shallow population grid of C03 (pods re-created below / above a partition with 1-3 revisions in flight). Non-trivial = at least one write."
 		rep.Validated = rep.States
 		return rep.Finish()
 	})
